@@ -128,6 +128,9 @@ var globalMu sync.Mutex
 func runProperty(p *Prog, prop, tier string, onlyFunc string) *PropRun {
 	pr := &PropRun{Prop: prop, Tier: tier, FuncResults: map[string]verifyResult{}, Notes: map[string]bool{}, Start: time.Now()}
 	names := funcsForProp(p, prop)
+	if prop == "C17" && onlyFunc == "" {
+		names = sweepFuncs(p, names)
+	}
 	if onlyFunc != "" {
 		names = []string{onlyFunc}
 	}
@@ -173,6 +176,11 @@ func runProperty(p *Prog, prop, tier string, onlyFunc string) *PropRun {
 		fs := p.specs.Funcs[name]
 		if fs == nil {
 			fs = &FuncSpec{Name: name, LoopAssigns: map[int][]string{}}
+			if prop == "C17" {
+				// discipline-only run of a function without a contract
+				fs.Owns = []string{"C17"}
+				fs.AutoInv = true
+			}
 		}
 		fn, ok := p.fns[name]
 		if !ok {
@@ -213,6 +221,9 @@ func runProperty(p *Prog, prop, tier string, onlyFunc string) *PropRun {
 		for _, o := range res.Obls {
 			if o.Kind == "rely" && !hasProp(o.Props, prop) {
 				continue
+			}
+			if prop == "C17" && o.Kind != "owns" && o.Kind != "vacuity" {
+				continue // the C17 check is the ownership discipline only
 			}
 			if strings.Contains(o.DeclText, "opaque.") {
 				o.Axioms = lemmaAxioms(p, x, o.DeclText)
@@ -796,4 +807,38 @@ func isAssumedContract(p *Prog, name string) bool {
 		}
 	}
 	return false
+}
+
+// sweepFuncs: every function and method of the packages C17 names (closures included), so that
+// the lock discipline is checked on all code, not only on functions that carry a contract.
+func sweepFuncs(p *Prog, have []string) []string {
+	seen := map[string]bool{}
+	for _, n := range have {
+		seen[n] = true
+	}
+	pkgs := map[string]bool{"limit": true, "strategy": true, "limiter": true, "measurements": true, "core": true,
+		"metric_registry/gometrics": true, "metric_registry/datadog": true, "limit/functions": true, "strategy/matchers": true}
+	out := append([]string(nil), have...)
+	for name, f := range p.fns {
+		if seen[name] || len(f.Blocks) == 0 || f.Synthetic != "" {
+			continue
+		}
+		pk := f.Pkg
+		if pk == nil && f.Parent() != nil {
+			pk = f.Parent().Pkg
+		}
+		if pk == nil || !pkgs[shortPkg(pk.Pkg)] {
+			continue
+		}
+		if f.Name() == "init" || strings.HasPrefix(f.Name(), "init#") || strings.HasPrefix(f.Name(), "init$") {
+			continue
+		}
+		if sp, ok := p.specs.Funcs[name]; ok && (sp.Trusted) {
+			continue
+		}
+		seen[name] = true
+		out = append(out, name)
+	}
+	sort.Strings(out)
+	return out
 }
